@@ -38,7 +38,8 @@ def run(ctx):
         ctx.ob("E4.accumulate", fk + "/covers-all", cov == ["all"] or (cov == ["tail1"] and len(adds0) >= 1), "loop iterates %s and sigs[0] is added %d time(s) on the exits" % (cov, len(adds0)), where=where(f))
         n, _ = check_arm_purity(ctx, "E2-A", P, [f])
         ctx.floor("E2-A", "variant switches in MultiSignature::try_from", n, 1)
-        F.check_no_dropping_adapters(ctx, "E7.adapters", P, [fk])
+        allow_skip = {(fk, "skip"): "skip(1): element 0 is added separately on the exits"} if (cov == ["tail1"] and len(adds0) >= 1) else {}
+        F.check_no_dropping_adapters(ctx, "E7.adapters", P, [fk], allow=allow_skip)
         # message augmentation refusal
         oks = R.ok_blocks(f)
         acc = [b for b, s in ev.sites.items() if s.callee[0] == "AddAssign::add_assign"]
@@ -79,6 +80,18 @@ def run(ctx):
         if a is None:
             continue
         ev = evaluate(a)
+        rfold = strip_sites(ev.ret)
+        if rfold.op == "call" and B.cname(rfold) == "Iterator::fold" and len(rfold.a[1]) == 3:
+            src, init, clo = rfold.a[1]
+            c = B.peel(clo)
+            okf = B.peel(src).op == "param" and B.peel(init).op == "call" and B.cname(B.peel(init)) == "Group::identity" and c.op == "agg" and c.a[0][0] == "closure"
+            if okf:
+                g = P.fns.get(c.a[0][1])
+                r = strip_sites(evaluate(g).ret) if g is not None else None
+                okf = r is not None and r.op == "call" and B.cname(r) in ("Add::add",) and {B.peel(x).a[0] if B.peel(x).op == "param" else None for x in r.a[1]} == {2, 3}
+            ctx.ob("E4.accumulate", ak, okf, "accumulator = fold(iterator, identity, |acc, x| acc + x)", where=where(a))
+            F.check_no_dropping_adapters(ctx, "E7.adapters", P, [ak])
+            continue
         res = F.loops_push_every_iteration(a)
         pname = a.locals[1].get("name")
         cov = [R.covers_all(s, pname) for _, s in R.loop_sources(a)]
